@@ -24,7 +24,7 @@ PROPERTY = "C04"
 LEVEL = "exploration"
 TIMEOUT = {"quick": 1500, "thorough": 7200}
 RULE = (
-    "recipes from vlib.gen.Gen (fusion-relevant shapes, reductions, rechunks, multi-output ops) x optimize_graph {on, off} x "
+    "recipes from vlib.gen.Gen (fusion-relevant shapes, reductions, rechunks, multi-output ops) x optimiser {off, default, fuse_all (forced fusion)} x "
     "reserved_mem {0, small} x allowed_mem in {P-1, P, P+1} where P is the maximum projected memory of the plan finalized under "
     "that budget (iterated when the plan's shape depends on the budget) x entry point {compute, to_zarr, store} x executor. An "
     "evaluation = one boundary probe; non-trivial = probes on both sides of the boundary exist for the recipe and this one was "
@@ -79,6 +79,15 @@ def shards(tier, seed):
              "watchdog_s": TIMEOUT[tier] - 30} for _ in range(NSHARDS[tier])]
 
 
+def okw(optimize):
+    """compute/plan keyword arguments for an optimiser mode: False | True (default optimiser) | 'fuse_all'."""
+    if optimize == "fuse_all":
+        from cubed.core.optimization import fuse_all_optimize_dag
+
+        return {"optimize_graph": True, "optimize_function": fuse_all_optimize_dag}
+    return {"optimize_graph": bool(optimize)}
+
+
 def build_and_plan(recipe, wd, allowed, reserved, optimize):
     """-> (outs, fp) ; raises whatever cubed raises"""
     import cubed
@@ -89,7 +98,7 @@ def build_and_plan(recipe, wd, allowed, reserved, optimize):
         warnings.simplefilter("ignore")
         vals = gen.cu_build(recipe, env)
         outs = [vals[i] for i in recipe["outputs"]]
-        fp = cubed.plan(*outs, optimize_graph=optimize)
+        fp = cubed.plan(*outs, **okw(optimize))
     return outs, fp
 
 
@@ -132,7 +141,7 @@ def probe(recipe, wd, allowed, reserved, optimize, entry, exname, res, facts_bas
             with warnings.catch_warnings():
                 warnings.simplefilter("ignore")
                 st = cubed.to_zarr(outs_t[0], os.path.join(wd, "twin", "t.zarr"), compute=False) if entry.startswith("to_zarr") else cubed.store([outs_t[0]], [os.path.join(wd, "twin", "t.zarr")], compute=False)[0]
-                fp = cubed.plan(st, optimize_graph=optimize)
+                fp = cubed.plan(st, **okw(optimize))
                 outs = [st]
         except Exception:
             storetrace.TRACE.stop()
@@ -149,7 +158,7 @@ def probe(recipe, wd, allowed, reserved, optimize, entry, exname, res, facts_bas
                 else:
                     stored = list(cubed.store([outs[0]], [tgt], compute=False))
                 outs = stored
-                fp = cubed.plan(*outs, optimize_graph=optimize)
+                fp = cubed.plan(*outs, **okw(optimize))
         except Exception as e:
             ev = storetrace.TRACE.stop()
             res["counters"]["refused_at_build"] += 1
@@ -163,7 +172,7 @@ def probe(recipe, wd, allowed, reserved, optimize, entry, exname, res, facts_bas
         P_un = max_proj(fp_un)
     except Exception:
         P_un = None
-    if optimize and P_un is not None and P_un <= allowed and exceeds:
+    if optimize is True and P_un is not None and P_un <= allowed and exceeds:
         V("optimisation-broke-admission", f"unoptimised plan fits ({P_un} <= {allowed}) but the default-optimised plan needs {P}", P=P, P_un=P_un)
     inner = runner.make_executor(exname)
     ex = advexec.Wrap(inner)
@@ -172,13 +181,13 @@ def probe(recipe, wd, allowed, reserved, optimize, entry, exname, res, facts_bas
         with warnings.catch_warnings():
             warnings.simplefilter("ignore")
             if entry == "compute":
-                cubed.compute(*outs, executor=ex, optimize_graph=optimize)
+                cubed.compute(*outs, executor=ex, **okw(optimize))
             elif entry == "to_zarr_eager":
-                cubed.to_zarr(eager_src, tgt, executor=ex, optimize_graph=optimize)
+                cubed.to_zarr(eager_src, tgt, executor=ex, **okw(optimize))
             elif entry == "store_eager":
-                cubed.store([eager_src], [tgt], executor=ex, optimize_graph=optimize)
+                cubed.store([eager_src], [tgt], executor=ex, **okw(optimize))
             else:
-                cubed.compute(*outs, executor=ex, optimize_graph=optimize, _return_in_memory_array=False)
+                cubed.compute(*outs, executor=ex, _return_in_memory_array=False, **okw(optimize))
     except Exception as e:
         err = e
     ev = storetrace.TRACE.stop()
@@ -220,7 +229,7 @@ def run_shard(spec, workdir):
         res["counters"]["recipes"] += 1
         for o in gen.recipe_ops(recipe):
             _rc.bump(res["hist"]["ops"], o)
-        optimize = rng.random() < 0.6
+        optimize = rng.choice([True, True, False, "fuse_all"])
         reserved = rng.choice([0, 0, 1000, 50000])
         wd = os.path.join(workdir, f"r{k}")
         try:
